@@ -363,7 +363,7 @@ impl Check for C17 {
                "stub": ["reqwest client + TLS + TCP + S3 (in-process endpoint behind the reqwest::get seam)"]})
     }
     fn required_probes(&self, _tier: Tier) -> Vec<&'static str> {
-        vec!["call.list_files", "call.download_file", "call.list_chunks", "call.download_chunk", "truncated_archive_listing", "key_with_xml_special", "key_with_non_ascii", "key_with_slash_in_name", "not_found_download", "fault.status", "fault.status_long_body", "fault.send_error", "fault.body_cut", "fault.xml_cut", "fault.bad_size", "fault.bad_last_modified", "fault.extra_elements", "fault.bad_last_modified_header", "listing_1000", "listing_1001", "short_truncated_page"]
+        vec!["call.list_files", "call.download_file", "call.list_chunks", "call.download_chunk", "truncated_archive_listing", "key_with_xml_special", "key_with_non_ascii", "key_with_slash_in_name", "not_found_download", "fault.status", "fault.status_long_body", "fault.send_error", "fault.body_cut", "fault.xml_cut", "fault.bad_size", "fault.bad_last_modified", "fault.extra_elements", "fault.bad_last_modified_header", "listing_1000", "listing_1001", "short_truncated_page", "folder_marker_object", "max_keys_beyond_u32"]
     }
     fn budget_s(&self, tier: Tier) -> u64 {
         match tier {
@@ -377,7 +377,15 @@ impl Check for C17 {
         let large = p.section == 2;
         // ---- bucket contents
         let site = ["KDMX", "KTLX", "PHWA", "TJUA"][tape.draw(4) as usize].to_string();
-        let date = NaiveDate::from_ymd_opt(2010 + tape.draw(15) as i32, 1 + tape.draw(12) as u32, 1 + tape.draw(28) as u32).unwrap();
+        // any calendar day, with the turn of the year (ISO week-year differs from the calendar year) over-represented
+        let date = match tape.weighted(&[6, 1, 1]) {
+            0 => {
+                let (y, m, d) = (2010 + tape.draw(16) as i32, 1 + tape.draw(12) as u32, 1 + tape.draw(31) as u32);
+                NaiveDate::from_ymd_opt(y, m, d).or_else(|| NaiveDate::from_ymd_opt(y, m, 28)).unwrap()
+            }
+            1 => NaiveDate::from_ymd_opt(2010 + tape.draw(16) as i32, 12, 29 + tape.draw(3) as u32).unwrap(),
+            _ => NaiveDate::from_ymd_opt(2010 + tape.draw(16) as i32, 1, 1 + tape.draw(3) as u32).unwrap(),
+        };
         let volume = 1 + tape.draw(999) as usize;
         let date_prefix = date.format("%Y/%m/%d").to_string();
         let n_objects = if large {
@@ -414,6 +422,13 @@ impl Check for C17 {
                 archive_map.insert(key, Obj { data: vec![7; 5], stamp_ms: s3sim::EPOCH_MS - 5000, fraction: true, listed_size: "5".into() });
                 let key = format!("{}/{}/{}", site, volume, draw_segment(tape, false, false));
                 realtime_map.insert(key, Obj { data: vec![0, 0, 0, 1, b'B', b'Z', 1], stamp_ms: s3sim::EPOCH_MS - 7000, fraction: false, listed_size: "7".into() });
+            }
+            // zero-byte "folder marker" objects: keys ending in '/', their final path segment is empty
+            if tape.draw(5) == 4 {
+                let sub = draw_segment(tape, true, false);
+                archive_map.insert(format!("{}/{}/{}/", date_prefix, site, sub), Obj { data: vec![], stamp_ms: s3sim::EPOCH_MS - 9000, fraction: true, listed_size: if tape.draw(2) == 0 { "0".into() } else { "3".into() } });
+                realtime_map.insert(format!("{}/{}/{}/", site, volume, sub), Obj { data: vec![], stamp_ms: s3sim::EPOCH_MS - 9000, fraction: false, listed_size: "0".into() });
+                ctx.count("folder_marker_object");
             }
         }
         let mut chunk_names: Vec<String> = Vec::new();
@@ -468,11 +483,13 @@ impl Check for C17 {
                         Call::DownloadFile(format!("{}{}_000000_missing", site, date.format("%Y%m%d")), false)
                     }
                 }
-                2 => Call::ListChunks(match tape.weighted(&[3, 2, 2, 1]) {
+                2 => Call::ListChunks(match tape.weighted(&[6, 4, 4, 2, 1]) {
                     0 => 100,
                     1 => 1,
                     2 => 1 + tape.draw(20) as usize,
-                    _ => 1000,
+                    3 => 1000,
+                    // any usize is a legal argument; S3 caps a page at 1000
+                    _ => [1usize << 32, (1usize << 32) + 1, (1usize << 32) + 5, usize::MAX, 1001, 65536][tape.draw(6) as usize],
                 }),
                 _ => {
                     if !chunk_names.is_empty() && tape.draw(5) != 0 {
@@ -662,6 +679,9 @@ impl Check for C17 {
                 }
                 Call::ListChunks(max) => {
                     ctx.count("call.list_chunks");
+                    if *max > u32::MAX as usize {
+                        ctx.count("max_keys_beyond_u32");
+                    }
                     let want_req = ReqKind::List { prefix: rt_prefix.clone(), max_keys: Some(*max) };
                     if req.host != s3sim::REALTIME_HOST || req.kind != want_req {
                         ctx.violate("request-shape", "list_chunks_in_volume".into(), format!("list_chunks_in_volume({}, {}, {}) requested {} (parsed {:?})", site, volume, max, req.url, req.kind));
